@@ -71,13 +71,21 @@ def md_nm(ref_aln, read_aln):
     return md, nm
 
 
+def lane_of(rid):
+    """flow cell and lane of a read id: the copies of one molecule (consecutive ids) come from different lanes / flow cells, so a read
+    group (flowcell.lane.sample) is often carried by duplicates only"""
+    return ('FLOWC' if rid % 5 else 'FLOWD'), 1 + (rid % 3 == 1)
+
+
 def qname(rid, case_id, cell, umi, bc='ACGTACGT', mx=MX_NLA, lib='LIB', extra=''):
-    return (f'Is:NS500;RN:1;Fc:FLOWC;La:1;Ti:1101;CX:{rid};CY:{case_id};Fi:N;CN:0;aa:ATCACG;aA:ATCACG;aI:1;LY:{lib};'
+    fc, la = lane_of(rid)
+    return (f'Is:NS500;RN:1;Fc:{fc};La:{la};Ti:1101;CX:{rid};CY:{case_id};Fi:N;CN:0;aa:ATCACG;aA:ATCACG;aI:1;LY:{lib};'
             f'RX:{umi};RQ:{"I" * len(umi)};bi:{cell};bc:{bc};MX:{mx};BC:{bc}{extra}')
 
 
 def restored_name(rid, case_id):
-    return f'NS500:1:FLOWC:1:1101:{rid}:{case_id}'
+    fc, la = lane_of(rid)
+    return f'NS500:1:{fc}:{la}:1101:{rid}:{case_id}'
 
 
 def id_from_name(name):
